@@ -1,5 +1,6 @@
 import BstreamVerif.Lemmas.ForkStep
 import BstreamVerif.Lemmas.Discovery
+import BstreamVerif.Lemmas.Inclusive
 /-!
 # C01 — Undo/New discipline: a consumer always holds one valid parent-linked chain
 
@@ -24,6 +25,7 @@ open BstreamVerif BstreamVerif.Forkable BstreamVerif.ForkDB
 
 /-- hypotheses on one step -/
 def StepOK (s : FState) (b : Blk) : Prop :=
+  (s.includeInit = false ∨ s.lastSent.isSome = true ∨ b.id ≠ s.db.libRef.id) ∧
   SentClosed s.db ∧ WFin b ∧ HB s.db b ∧ LibDeclOK s.db b
 
 /-- hypotheses along a history -/
@@ -41,7 +43,7 @@ theorem step_discipline (cfg : Config) (hnew : cfg.matches .new = true) (hundo :
     ∃ P', (⟨s.db.libRef.id, P⟩ : CS).run (processBlock cfg s b none).2.1 =
         some ⟨(processBlock cfg s b none).1.db.libRef.id, P'⟩ ∧
       Inv (processBlock cfg s b none).1 P' :=
-  let ⟨P', h1, h2, _, _, _⟩ := processBlock_step cfg hnew hundo hirr s P b hI hok.1 hok.2.1 hok.2.2.1 hok.2.2.2
+  let ⟨P', h1, h2, _, _, _⟩ := processBlock_step cfg hnew hundo hirr s P b hI hok.1 hok.2.1 hok.2.2.1 hok.2.2.2.1 hok.2.2.2.2
   ⟨P', h1, h2⟩
 
 theorem runHistory_cons (cfg : Config) (s : FState) (b : Blk) (r : List Blk) :
@@ -97,14 +99,19 @@ def LibHistOK (cfg : Config) : FState → List Blk → Prop
 theorem step_discipline_consistent (cfg : Config) (hnew : cfg.matches .new = true) (hundo : cfg.matches .undo = true)
     (hirr : cfg.matches .irreversible = true) (U : Id → Option Blk) (hU : UOK U) (F : List Id)
     (s : FState) (P : List Id) (b : Blk) (hI : Inv s P) (hJ : Inv2 U F s.db) (hbU : U b.id = some b)
-    (hL : LibDeclOK s.db b) :
+    (hL : LibDeclOK s.db b) (hni : s.includeInit = false ∨ s.lastSent.isSome = true ∨ b.id ≠ s.db.libRef.id) :
     ∃ P' F', (⟨s.db.libRef.id, P⟩ : CS).run (processBlock cfg s b none).2.1 =
         some ⟨(processBlock cfg s b none).1.db.libRef.id, P'⟩ ∧
-      Inv (processBlock cfg s b none).1 P' ∧ Inv2 U F' (processBlock cfg s b none).1.db := by
-  obtain ⟨P', h1, h2, _, h4, _⟩ := processBlock_step cfg hnew hundo hirr s P b hI
+      Inv (processBlock cfg s b none).1 P' ∧ Inv2 U F' (processBlock cfg s b none).1.db ∧
+      (((processBlock cfg s b none).2.1 = [] ∧ (processBlock cfg s b none).1.lastSent = s.lastSent) ∨
+        (processBlock cfg s b none).1.lastSent.isSome = true) := by
+  obtain ⟨P', h1, h2, h3, h4, _⟩ := processBlock_step cfg hnew hundo hirr s P b hI hni
     (sentClosed_of_inv2 U F s.db hI.wf hI.heights hJ) (hU.wf b.id b hbU) (hb_of_inv2 U hU F s.db hJ b hbU) hL
   obtain ⟨F', hJ'⟩ := h4 U F hU hJ hbU
-  exact ⟨P', F', h1, h2, hJ'⟩
+  refine ⟨P', F', h1, h2, hJ', ?_⟩
+  rcases h3 with h | ⟨_, _, l, hl, _⟩
+  · exact Or.inl h
+  · exact Or.inr (by rw [hl]; rfl)
 
 /-- **every history of blocks of one consistent block tree** — any order, duplicates, gaps, forks, orphans, blocks
     below the LIB, blocks arriving before their parents: the whole event stream keeps the push/pop consumer on one
@@ -114,15 +121,24 @@ theorem step_discipline_consistent (cfg : Config) (hnew : cfg.matches .new = tru
 theorem history_discipline_consistent (cfg : Config) (hnew : cfg.matches .new = true) (hundo : cfg.matches .undo = true)
     (hirr : cfg.matches .irreversible = true) (U : Id → Option Blk) (hU : UOK U) (h : List Blk) (F : List Id)
     (s : FState) (P : List Id) (hI : Inv s P) (hJ : Inv2 U F s.db) (hin : ∀ b ∈ h, U b.id = some b)
-    (hL : LibHistOK cfg s h) :
+    (hL : LibHistOK cfg s h) (hincl : s.includeInit = false ∨ s.lastSent.isSome = true) :
     ∃ P', (⟨s.db.libRef.id, P⟩ : CS).run (runHistory cfg s h).2 =
         some ⟨(runHistory cfg s h).1.db.libRef.id, P'⟩ ∧ Inv (runHistory cfg s h).1 P' := by
   induction h generalizing s P F with
   | nil => exact ⟨P, rfl, hI⟩
   | cons b r ih =>
-    obtain ⟨P1, F1, hrun1, hI1, hJ1⟩ :=
-      step_discipline_consistent cfg hnew hundo hirr U hU F s P b hI hJ (hin b (by simp)) hL.1
+    have hni : s.includeInit = false ∨ s.lastSent.isSome = true ∨ b.id ≠ s.db.libRef.id := by
+      rcases hincl with h | h
+      · exact Or.inl h
+      · exact Or.inr (Or.inl h)
+    obtain ⟨P1, F1, hrun1, hI1, hJ1, htip⟩ :=
+      step_discipline_consistent cfg hnew hundo hirr U hU F s P b hI hJ (hin b (by simp)) hL.1 hni
     obtain ⟨P2, hrun2, hI2⟩ := ih F1 _ P1 hI1 hJ1 (fun x hx => hin x (by simp [hx])) hL.2
+      (by rcases hincl with h | h
+          · exact Or.inl (by rw [processBlock_includeInit]; exact h)
+          · rcases htip with ⟨_, hsame⟩ | hsome
+            · exact Or.inr (by rw [hsame]; exact h)
+            · exact Or.inr hsome)
     rw [runHistory_cons]
     refine ⟨P2, ?_, hI2⟩
     simp only
@@ -169,7 +185,7 @@ theorem history_discipline_discovery (cfg : Config) (hhold : cfg.hold = true) (h
               some ⟨(runHistory cfg s (b :: r)).1.db.libRef.id, P3⟩ ∧ Inv (runHistory cfg s (b :: r)).1 P3 := by
       intro P' F hI hJ
       obtain ⟨P3, hrun, hI3⟩ := history_discipline_consistent cfg hnew hundo hirr U hU r F _ P' hI hJ
-        (fun x hx => hin x (by simp [hx])) hL.2
+        (fun x hx => hin x (by simp [hx])) hL.2 (Or.inl (by rw [processBlock_includeInit]; exact hP.noInit))
       refine ⟨[], b, r, P', rfl, rfl, hd, hI, by rw [runHistory_cons]; rfl, P3, ?_, ?_⟩
       · rw [runHistory_cons]; exact hrun
       · rw [runHistory_cons]; exact hI3
@@ -190,6 +206,94 @@ theorem history_discipline_discovery (cfg : Config) (hhold : cfg.hold = true) (h
     · exact Or.inr (hfound [] [b.id] hI hJ)
     · exact Or.inr (hfound _ [Lb.id] hI hJ)
 
+/-! ### the inclusive starting block (`WithInclusiveLIB`) -/
+
+/-- **a forkable started on an inclusive LIB**, fed any history of blocks of one consistent block tree: either nothing is
+    ever delivered; or the history splits as `h1 ++ b :: h2` where nothing is delivered during `h1`, the block `b` is the
+    first one delivered — either it is the starting block itself, delivered New and announced irreversible at once, or a
+    block that the push/pop consumer resting on the starting LIB accepts — and from then on the whole event stream
+    keeps the consumer on one parent-linked chain resting on the LIB. -/
+theorem history_discipline_inclusive (cfg : Config) (hnew : cfg.matches .new = true) (hundo : cfg.matches .undo = true)
+    (hirr : cfg.matches .irreversible = true) (U : Id → Option Blk) (hU : UOK U) (h : List Blk) (F : List Id)
+    (s : FState) (hI : Inv s []) (hJ : Inv2 U F s.db) (hincl : s.includeInit = true) (hls : s.lastSent = none)
+    (hin : ∀ b ∈ h, U b.id = some b) (hL : LibHistOK cfg s h) :
+    ((runHistory cfg s h).2 = [] ∧ (runHistory cfg s h).1.lastSent = none) ∨
+    (∃ h1 b h2 P', h = h1 ++ b :: h2 ∧ (runHistory cfg s h1).2 = [] ∧
+      ((b.id = (runHistory cfg s h1).1.db.libRef.id ∧ P' = [] ∧
+          (processBlock cfg (runHistory cfg s h1).1 b none).2.1.map sbOf = [(Step.new, b), (Step.irreversible, b)]) ∨
+        (⟨(runHistory cfg s h1).1.db.libRef.id, []⟩ : CS).run (processBlock cfg (runHistory cfg s h1).1 b none).2.1 =
+          some ⟨(processBlock cfg (runHistory cfg s h1).1 b none).1.db.libRef.id, P'⟩) ∧
+      Inv (processBlock cfg (runHistory cfg s h1).1 b none).1 P' ∧
+      (runHistory cfg s h).2 = (processBlock cfg (runHistory cfg s h1).1 b none).2.1 ++
+        (runHistory cfg (processBlock cfg (runHistory cfg s h1).1 b none).1 h2).2 ∧
+      ∃ P'', (⟨(processBlock cfg (runHistory cfg s h1).1 b none).1.db.libRef.id, P'⟩ : CS).run
+          (runHistory cfg (processBlock cfg (runHistory cfg s h1).1 b none).1 h2).2 =
+          some ⟨(runHistory cfg s h).1.db.libRef.id, P''⟩ ∧ Inv (runHistory cfg s h).1 P'') := by
+  induction h generalizing s F with
+  | nil => exact Or.inl ⟨rfl, hls⟩
+  | cons b r ih =>
+    -- once something was sent the rest of the history is an ordinary one
+    have hrest : ∀ (P' : List Id) (F' : List Id), Inv (processBlock cfg s b none).1 P' →
+        Inv2 U F' (processBlock cfg s b none).1.db → (processBlock cfg s b none).1.lastSent.isSome = true →
+        ∃ P3, (⟨(processBlock cfg s b none).1.db.libRef.id, P'⟩ : CS).run (runHistory cfg (processBlock cfg s b none).1 r).2 =
+            some ⟨(runHistory cfg s (b :: r)).1.db.libRef.id, P3⟩ ∧ Inv (runHistory cfg s (b :: r)).1 P3 := by
+      intro P' F' hI' hJ' hsome
+      obtain ⟨P3, hrun, hI3⟩ := history_discipline_consistent cfg hnew hundo hirr U hU r F' _ P' hI' hJ'
+        (fun x hx => hin x (by simp [hx])) hL.2 (Or.inr hsome)
+      exact ⟨P3, by rw [runHistory_cons]; exact hrun, by rw [runHistory_cons]; exact hI3⟩
+    by_cases hid : b.id = s.db.libRef.id
+    · -- the starting block itself
+      obtain ⟨hevs, hlast, hlib, hI', hJ'⟩ :=
+        inclusive_root_step cfg hnew hirr U hU F s [] b hI hJ hincl hls (hin b (by simp)) hid
+      obtain ⟨P3, hrun, hI3⟩ := hrest [] F hI' hJ' (by rw [hlast]; rfl)
+      right
+      exact ⟨[], b, r, [], rfl, rfl, Or.inl ⟨hid, rfl, hevs⟩, hI', by rw [runHistory_cons]; rfl, P3, hrun, hI3⟩
+    · obtain ⟨P1, F1, hrun1, hI1, hJ1, htip⟩ :=
+        step_discipline_consistent cfg hnew hundo hirr U hU F s [] b hI hJ (hin b (by simp)) hL.1 (Or.inr (Or.inr hid))
+      rcases htip with ⟨hev, hsame⟩ | hsome
+      · -- nothing delivered: still waiting
+        have hls' : (processBlock cfg s b none).1.lastSent = none := by rw [hsame]; exact hls
+        have hP1 : P1 = [] := (hI1.topNone hls').1
+        subst hP1
+        rcases ih F1 _ hI1 hJ1 (by rw [processBlock_includeInit]; exact hincl) hls'
+            (fun x hx => hin x (by simp [hx])) hL.2 with ⟨he, hl⟩ | ⟨h1, b', h2, P', heq, he1, hfirst, hIb, hevs, P'', hrun, hIf⟩
+        · left
+          rw [runHistory_cons]
+          exact ⟨by simp only; rw [hev, he]; rfl, hl⟩
+        · right
+          refine ⟨b :: h1, b', h2, P', by rw [heq]; rfl, ?_, ?_, ?_, ?_, P'', ?_, ?_⟩
+          · rw [runHistory_cons]; simp only; rw [hev, he1]; rfl
+          · rw [runHistory_cons]; exact hfirst
+          · rw [runHistory_cons]; exact hIb
+          · rw [runHistory_cons, runHistory_cons]; simp only; rw [hev, hevs]; rfl
+          · rw [runHistory_cons, runHistory_cons]; exact hrun
+          · rw [runHistory_cons]; exact hIf
+      · -- an ordinary block was the first one delivered
+        obtain ⟨P3, hrun, hI3⟩ := hrest P1 F1 hI1 hJ1 hsome
+        right
+        exact ⟨[], b, r, P1, rfl, rfl, Or.inr hrun1, hI1, by rw [runHistory_cons]; rfl, P3, hrun, hI3⟩
+
+/-- the invariants hold initially for a forkable started on an inclusive LIB `r` consistent with the universe -/
+theorem init_inv_inclusive (cfg : Config) (r : Ref) (hr : r.id ≠ "") (hroot : cfg.root = some (.inclusive r))
+    (U : Id → Option Blk)
+    (h1 : ∀ b, U b.id = some b → b.parent = r.id → r.num < b.num)
+    (h2 : ∀ b, U b.id = some b → b.id = r.id → b.num = r.num) :
+    Inv (init cfg) [] ∧ Inv2 U [r.id] (init cfg).db ∧ (init cfg).includeInit = true ∧ (init cfg).lastSent = none := by
+  unfold init
+  rw [hroot]
+  refine ⟨⟨hr, ⟨by simp [DB.initLIB, DB.empty], by simp [DB.initLIB, DB.empty]⟩,
+    ⟨by simp [DB.initLIB, DB.empty], by simp [DB.initLIB, DB.empty], by simp [DB.initLIB, DB.empty]⟩,
+    trivial, by simp, by simp, by simp, ?_, ?_, ?_⟩, ⟨?_, by simp [DB.initLIB, DB.empty], ?_, by simp [DB.initLIB, DB.empty], h1, h2⟩, rfl, rfl⟩
+  · intro _; exact ⟨rfl, by simp [DB.initLIB, DB.empty]⟩
+  · intro c cs h; cases h
+  · intro i n hin
+    simp only [DB.initLIB, DB.empty, Option.some.injEq, Prod.mk.injEq] at hin
+    rw [← hin.1]; exact hr
+  · intro e he; simp [DB.initLIB, DB.empty] at he
+  · intro f hf hne
+    simp only [List.mem_singleton] at hf
+    exact absurd hf hne
+
 /-- the universe-side invariant holds initially for a forkable started on an exclusive LIB `r` that is consistent
     with the universe (blocks naming `r` as parent are higher; the block `r` itself, if it exists, has `r`'s number) -/
 theorem init_inv2 (cfg : Config) (r : Ref) (hroot : cfg.root = some (.exclusive r)) (U : Id → Option Blk)
@@ -209,7 +313,7 @@ theorem init_inv (cfg : Config) (r : Ref) (hr : r.id ≠ "") (hroot : cfg.root =
     Inv (init cfg) [] := by
   unfold init
   rw [hroot]
-  refine ⟨rfl, hr, ⟨by simp [DB.initLIB, DB.empty], by simp [DB.initLIB, DB.empty]⟩,
+  refine ⟨hr, ⟨by simp [DB.initLIB, DB.empty], by simp [DB.initLIB, DB.empty]⟩,
     ⟨by simp [DB.initLIB, DB.empty], by simp [DB.initLIB, DB.empty], by simp [DB.initLIB, DB.empty]⟩,
     trivial, by simp, by simp, by simp, ?_, ?_, ?_⟩
   · intro _; exact ⟨rfl, by simp [DB.initLIB, DB.empty]⟩
